@@ -206,7 +206,7 @@ example : (run (init fun _ => true)
 example : (run (init fun _ => false)
     [(.u 1, .start 2 true), (.u 1, .go), (.u 1, .sysAgain true true), (.u 1, .durv 3), (.u 1, .go),
      (.k 0, .go), (.k 0, .go), (.k 0, .go), (.k 0, .go), (.k 0, .go), (.k 0, .go),
-     (.env, .tick 3000000), (.w 0, .fire 0), (.w 0, .go)]).upc 1 = .done .timedOut := by decide
+     (.env, .tick 3000000), (.w 0, .fire 0), (.w 0, .go), (.w 0, .go)]).upc 1 = .done .timedOut := by decide
 -- streams: two writes split by the kernel, three reads with different buffers, shutdown, EOF
 example : (Kern.run Kern.init [.room 4, .write [1, 2, 3] 2, .write [3] 9, .read 1 9, .room 2, .write [4, 5] 9, .read 10 2, .shutdown,
     .read 10 9, .read 10 9]).rcvd = [1, 2, 3, 4, 5] := by decide
